@@ -114,6 +114,33 @@ def record(ctx, case, res, sample_extra=None):
             ctx.fail(fp, case, obs)
 
 
+def _reproduces_in_fresh_process(case, fp):
+    import json
+    import os
+    import subprocess
+    import sys
+    import tempfile
+
+    verif_dir = os.path.dirname(os.path.dirname(os.path.dirname(os.path.abspath(__file__))))
+    with tempfile.TemporaryDirectory(prefix="vk-c11-") as d:
+        path = os.path.join(d, "case.json")
+        with open(path, "w") as f:
+            json.dump(case, f)
+        code = ("import sys, json; from vk import env; env.setup_paths(); env.import_claripy(); from vk.props import c11; "
+                "case = json.load(open(sys.argv[1])); print('FPS=' + json.dumps([f for f, _o in c11.replay(case)]))")
+        env_ = dict(os.environ)
+        env_["PYTHONPATH"] = verif_dir + (os.pathsep + env_["PYTHONPATH"] if env_.get("PYTHONPATH") else "")
+        for _ in range(2):
+            try:
+                p = subprocess.run([sys.executable, "-B", "-c", code, path], cwd=verif_dir, env=env_, timeout=600, capture_output=True, text=True)
+            except subprocess.TimeoutExpired:
+                continue
+            for line in p.stdout.splitlines():
+                if line.startswith("FPS=") and fp in json.loads(line[4:]):
+                    return True
+    return False
+
+
 def record_str(ctx, case, res):
     st_ = res.stats
     nontrivial = st_["answers_checked"] >= 2 and st_["adds"] >= 2
@@ -138,6 +165,12 @@ def record_str(ctx, case, res):
             if any(f == fp for f, _o in strm.run_case(case["frontend"], case).fails):
                 again = True
                 break
+        # ... and it has to show in a fresh interpreter as well, from the saved input alone: this process may have had Z3 calls
+        # interrupted by the watchdog earlier, after which the shared Z3 context is not to be trusted (a thorough-tier run
+        # under load reported an impossible model once, which no later replay showed)
+        if again and not _reproduces_in_fresh_process(case, fp):
+            again = False
+            ctx.count("unreproduced_in_fresh_process")
         if again:
             ctx.fail(fp, case, obs)
         else:
